@@ -33,12 +33,20 @@ def bounds(tier):
             "tools": sorted(TOOLS)}
 
 
-def mesh3(nb0=3):
+# box -> file layouts of the 3D input: variant 0 = three files per level, numbers out of order; variant 1 = level 0 in ONE file
+# in non-monotone on-disk order, every level-1 box in its own file (four per-file tasks); variant 2 = two files per level, a
+# gap in the numbering, the first listed box last on disk
+LAYOUTS3 = [[{"files": [[1], [0], [2]], "nums": [2, 0, 1]}, {"files": [[3, 0], [1], [2]], "nums": [0, 1, 2]}],
+            [{"files": [[2, 0, 1]], "nums": [0]}, {"files": [[2], [0], [3], [1]], "nums": [3, 1, 2, 0]}],
+            [{"files": [[1, 2], [0]], "nums": [2, 4]}, {"files": [[1, 3], [2, 0]], "nums": [2, 0]}]]
+
+
+def mesh3(variant=0):
     return {"ndims": 3, "domain": [4, 4, 2],
             "levels": [[[[2, 0, 0], [3, 1, 1]], [[0, 0, 0], [1, 3, 1]], [[2, 2, 0], [3, 3, 1]]],      # (small boxes before large ones)
                        [[[0, 6, 0], [1, 7, 1]], [[2, 2, 0], [5, 5, 3]], [[6, 0, 2], [7, 1, 3]], [[0, 0, 0], [1, 1, 1]]]],
             "fields": ["temp", "density", "Z"], "payload": ["signed", "signed", "boxcancel"],
-            "layout": [{"files": [[1], [0], [2]], "nums": [2, 0, 1]}, {"files": [[3, 0], [1], [2]], "nums": [0, 1, 2]}]}
+            "layout": LAYOUTS3[variant]}
 
 
 def mesh2():
@@ -219,9 +227,18 @@ TOOLS = {"reader_slice": (t_reader_slice, True), "reader_iter": (t_reader_iter, 
          "pestle": (t_pestle, False), "whip": (t_whip, False), "chk2plt": (t_chk2plt, False)}
 
 
+# tools whose input is the 3D plotfile with the variable layout
+P3_TOOLS = ["reader_slice", "reader_iter", "taste", "taste_bad", "colander", "combine_byfile", "combine_bybox", "chef", "mandoline3d",
+            "mandoline3d_plt", "pestle", "whip"]
+
+
 def cases(tier, seed):
     out = [{"tool": t, "seed": seed, "bound": bounds(tier)["deviation_bound"], "w": 5 if t in ("taste", "chk2plt", "pestle") else 1}
            for t in sorted(TOOLS)]
+    # the other box -> file layouts of the 3D input (quick: deviation bound 1; thorough: 2)
+    for v in (1, 2):
+        out += [{"tool": t, "variant": v, "seed": seed, "bound": bounds(tier)["deviation_bound"], "w": 5 if t in ("taste", "pestle") else 1}
+                for t in P3_TOOLS]
     out.append({"tool": "@chef_history", "seed": seed, "bound": 1, "w": 10})
     out.append({"tool": "@cwd_history", "seed": seed, "bound": 1, "w": 10})
     return out
@@ -344,10 +361,10 @@ def run_history_case(case, workdir, rec):
     rec.sample({"history": "Chef(A, 1 atm, parallel).cook(); Chef(X, p, parallel).cook() in one process", "variants": [h[0] for h in HISTORIES]})
 
 
-def make_env(workdir, seed, tag=""):
+def make_env(workdir, seed, tag="", variant=0):
     import amr_kitchen
     env = {}
-    d3 = dict(mesh3(), seed=seed)
+    d3 = dict(mesh3(variant), seed=seed)
     env["p3"], ref3 = build(d3, workdir, "plt00010" + tag)
     same = dict(d3, fields=["Zvar", "Y(H2)"], seed=seed + 1, payload="coded")
     env["p3same"], _ = build(same, workdir, "plt00011" + tag)
@@ -358,7 +375,7 @@ def make_env(workdir, seed, tag=""):
     # a damaged copy: last file of level 1 truncated
     env["p3bad"] = os.path.join(workdir, "plt00013" + tag)
     shutil.copytree(env["p3"], env["p3bad"])
-    victim = os.path.join(env["p3bad"], "Level_1", "Cell_D_00002")
+    victim = os.path.join(env["p3bad"], "Level_1", "Cell_D_%05d" % max(d3["layout"][1]["nums"]))
     with open(victim, "r+b") as f:
         f.truncate(os.path.getsize(victim) - 8)
     from . import c11
@@ -465,7 +482,8 @@ def run_case(case, workdir):
     if tool == "@cwd_history":
         run_cwd_case(case, workdir, rec)
         return rec.result()
-    env = make_env(workdir, case["seed"])
+    variant = case.get("variant", 0)
+    env = make_env(workdir, case["seed"], variant=variant)
     fn, has_serial = TOOLS[tool]
     out = os.path.join(workdir, "out_" + tool)
     seen = {}
@@ -478,8 +496,8 @@ def run_case(case, workdir):
         n += 1
         ident = not plan
         sub = {"tool": tool, "plan": explorer.plan_json(plan)}
-        rec.exe([tool, explorer.plan_json(plan)], nontrivial=not ident, trans=sum(c["n"] for c in ctl.calls))
-        rec.outcome("%s:%016x" % (tool, dg))
+        rec.exe([tool, variant, explorer.plan_json(plan)], nontrivial=not ident, trans=sum(c["n"] for c in ctl.calls))
+        rec.outcome("%s%s:%016x" % (tool, "@%d" % variant if variant else "", dg))
         seen.setdefault(dg, (explorer.plan_json(plan), obs))
         if ident:
             base = dg
@@ -505,15 +523,15 @@ def run_case(case, workdir):
     for nw in (1, 2, 3, 5):
         with unittest.mock.patch("os.cpu_count", return_value=nw), unittest.mock.patch("multiprocessing.cpu_count", return_value=nw):
             ctl, ev, dg, obs = observe(tool, env, out, False, {}, nworkers=nw)
-        rec.exe([tool, "workers", nw], nontrivial=True, trans=sum(c["n"] for c in ctl.calls))
+        rec.exe([tool, variant, "workers", nw], nontrivial=True, trans=sum(c["n"] for c in ctl.calls))
         if dg != base:
             rec.fail("worker_count_dependent", {"tool": tool, "workers": nw}, "%r vs %r with the default pool size" % (obs, seen[base][1]))
     if has_serial:
         ctl, ev, dg, obs = observe(tool, env, out, True, {})
-        rec.exe([tool, "serial"], nontrivial=True)
+        rec.exe([tool, variant, "serial"], nontrivial=True)
         if dg != base:
             rec.fail("serial_differs_from_parallel", {"tool": tool}, "%r vs %r" % (obs, seen[base][1]))
-    rec.sample({"tool": tool, "schedules": n, "distinct_observations": len(seen)})
+    rec.sample({"tool": tool, "layout_variant": variant, "schedules": n, "distinct_observations": len(seen)})
     return rec.result()
 
 
@@ -554,6 +572,13 @@ def parent_pass(tier, seed, workdir):
         for rep in range(2):
             ctl, ev, dg, obs = observe(tool, env, out, False, None, controlled=False)
             res.append({"outcome": "%s:%016x" % (tool, dg), "what": "real pool run %d of %s" % (rep, tool), "obs": repr(obs)[:200]})
+    for v in (1, 2):
+        wv = os.path.join(workdir, "variant%d" % v)
+        os.makedirs(wv)
+        env = make_env(wv, seed, variant=v)
+        for tool in P3_TOOLS:
+            ctl, ev, dg, obs = observe(tool, env, os.path.join(wv, "free_" + tool), False, None, controlled=False)
+            res.append({"outcome": "%s@%d:%016x" % (tool, v, dg), "what": "real pool run of %s, layout variant %d" % (tool, v), "obs": repr(obs)[:200]})
     return res
 
 
